@@ -109,6 +109,7 @@ func cmdVerify(args []string) int {
 		fmt.Println("no function matches")
 		return 2
 	}
+	addContractPkgs(pkgSet, cs)
 	var pats []string
 	for p := range pkgSet {
 		pats = append(pats, p)
@@ -259,3 +260,24 @@ func writeJSON(path string, v interface{}) error {
 }
 
 
+
+// addContractPkgs: keeper- and ante-level checks talk about several modules (ghost stores, preludes, interface
+// implementations), so as soon as a selected package is not a leaf `types` package every package that carries a
+// contract file is loaded.
+func addContractPkgs(pkgSet map[string]bool, cs *ContractSet) {
+	leafOnly := true
+	for p := range pkgSet {
+		if !strings.HasSuffix(p, "/types") && p != repoModule+"/types" {
+			leafOnly = false
+		}
+	}
+	if leafOnly {
+		return
+	}
+	for _, f := range cs.Files {
+		if strings.HasSuffix(f, "zz_contracts_verif.go") {
+			rel := strings.TrimPrefix(filepath.Dir(f), "/repo")
+			pkgSet[repoModule+rel] = true
+		}
+	}
+}
